@@ -3,9 +3,11 @@ package harness
 import (
 	"fmt"
 	"strings"
+	"time"
 
 	sdkmath "cosmossdk.io/math"
 	sdk "github.com/cosmos/cosmos-sdk/types"
+	"github.com/cosmos/cosmos-sdk/x/authz"
 
 	"github.com/sge-network/sge/x/bet"
 	betkeeper "github.com/sge-network/sge/x/bet/keeper"
@@ -114,6 +116,37 @@ func (c *coreScript) deposit(m *coreMarket, who int, amount int64) {
 		return err
 	})
 	c.finish(err)
+}
+
+// grant saves an authz grant granter -> grantee (kind 0 deposit, 1 withdraw) that expires `ttl` seconds from now.
+func (c *coreScript) grant(granter, grantee, kind int, limit, ttl int64) {
+	var a authz.Authorization
+	if kind == 0 {
+		a = &housetypes.DepositAuthorization{SpendLimit: sdkmath.NewInt(limit)}
+	} else {
+		a = &housetypes.WithdrawAuthorization{WithdrawLimit: sdkmath.NewInt(limit)}
+	}
+	t := time.Unix(c.now+ttl, 0).UTC()
+	if err := c.e.App.AuthzKeeper.SaveGrant(c.e.Ctx, c.e.Accts[grantee], c.e.Accts[granter], a, &t); err != nil {
+		panic(err)
+	}
+	c.out.Op("GR %d %d %d %d %d", granter, grantee, kind, limit, t.Unix())
+	noteGrant(c.h, granter, grantee, kind, limit, t.Unix())
+}
+
+// depositFor: MsgDeposit signed by `creator` whose ticket names `pd` as the depositor (delegated deposit).
+func (c *coreScript) depositFor(m *coreMarket, creator, pd int, amount int64) {
+	tk := c.e.Ticket(0, map[string]interface{}{"kyc_data": map[string]interface{}{"ignore": true, "approved": false, "id": ""}, "depositor_address": c.e.Accts[pd].String()})
+	c.out.Op("HD %d 1 1 0 999999 %d %d %d", creator, m.n, amount, pd)
+	pre := captureHouse(c.e, pd, creator, 0, m.uid, 0)
+	err, _ := c.e.Tx(func(ctx sdk.Context) error {
+		_, err := c.hs.Deposit(sdk.WrapSDKContext(ctx), &housetypes.MsgDeposit{Creator: c.e.Accts[creator].String(), MarketUID: m.uid, Amount: sdkmath.NewInt(amount), Ticket: tk})
+		return err
+	})
+	c.finish(err)
+	if err == nil {
+		depositMonitor(c.out, c.h, c.e, c.ix, pre, creator, pd, sdkmath.NewInt(amount), m.uid)
+	}
 }
 
 func (c *coreScript) wager(m *coreMarket, who, outcome int, oddsDec string, amount int64) {
@@ -335,6 +368,23 @@ func runCoreScripted(seed uint64, n int, out *Out) {
 			c.wager(m, 7, 1, "2", 12)
 			c.endBlock()
 			c.resolve(m, 5, 1)
+			c.endBlock()
+		},
+		// 9: a deposit grant is used in part, then outlives neither its expiry nor its limit: the second delegated deposit
+		//    after the expiry must be refused, and so must one above what is left
+		func(h int) {
+			c := newCoreScript(out, h, 100, 0, 2, 1, 0, 1000, 100)
+			m := c.market(2)
+			c.grant(1, 2, 0, 1000, 12)
+			c.depositFor(m, 2, 1, 400)
+			c.depositFor(m, 2, 1, 700) // more than the 600 left
+			c.endBlock()
+			c.endBlock()
+			c.endBlock() // 15 s later: past the expiry
+			c.depositFor(m, 2, 1, 300)
+			c.grant(1, 2, 0, 500, 100)
+			c.depositFor(m, 2, 1, 500) // uses the grant up exactly
+			c.depositFor(m, 2, 1, 100)
 			c.endBlock()
 		},
 	}
